@@ -634,7 +634,7 @@ def c04(ctx):
     cases, n = vlib.tlc_generate(ctx, "Gen_Tok", tok_cfg(2, 2, 1, 3 if q else 4, "{0, 2, 128}" if q else "{0, 2, 128, 512}"),
                                  "gen-vocab.ndjson", env={"FAMILY": "vocab"})
     tok_judge(ctx, cases, "A-vocab", {"C04"})
-    casesb, n = vlib.tlc_generate(ctx, "Gen_Tok", tok_cfg(2, 2, 3, 3, "{0}"), "gen-bpe.ndjson", env={"FAMILY": "bpe"})
+    casesb, n = vlib.tlc_generate(ctx, "Gen_Tok", tok_cfg(2, 2, 3, 3, "{0}"), "gen-bpe.ndjson", env={"FAMILY": "bpe", "LOWMV": "1"})
     tok_judge(ctx, casesb, "A-bpe", {"C04"})
     ctx.exhaustive = True
     rnd = ctx.path("rnd.ndjson")
